@@ -12,17 +12,21 @@ From PB Require Import C05Proofs C01Proofs FdlOracleSound1.
 
 Definition gv (now : Z) (v : option Z) : Z := match v with Some l => l | None => now end.
 
-Definition lba_moves (now : Z) (v v' : option Z) : Prop :=
-  v' = v \/ v' = Some (gv now v) \/ v' = Some (Z.max (gv now v) now).
+(* mk: bus activity may have been marked at `now` (PHY busy, or something in the receive buffer) *)
+Definition lba_moves (mk : Prop) (now : Z) (v v' : option Z) : Prop :=
+  v' = v \/ v' = Some (gv now v) \/ (mk /\ v' = Some (Z.max (gv now v) now)).
 
-Lemma lba_moves_refl now v : lba_moves now v v.
+Lemma lba_moves_refl mk now v : lba_moves mk now v v.
 Proof. left. reflexivity. Qed.
 
-Lemma lba_moves_trans now v1 v2 v3 : lba_moves now v1 v2 -> lba_moves now v2 v3 -> lba_moves now v1 v3.
+Lemma lba_moves_trans mk now v1 v2 v3 : lba_moves mk now v1 v2 -> lba_moves mk now v2 v3 -> lba_moves mk now v1 v3.
 Proof.
-  unfold lba_moves. intros [-> | [-> | ->]] [-> | [-> | ->]]; cbn [gv]; auto;
-    right; right; f_equal; lia.
+  unfold lba_moves. intros [-> | [-> | (M1 & ->)]] [-> | [-> | (M2 & ->)]]; cbn [gv]; auto;
+    right; right; (split; [assumption|]); f_equal; lia.
 Qed.
+
+Lemma lba_moves_weaken (mk mk' : Prop) now v v' : (mk -> mk') -> lba_moves mk now v v' -> lba_moves mk' now v v'.
+Proof. unfold lba_moves. intros H [E|[E|(M & E)]]; auto. Qed.
 
 Definition dur (p : params) (k : nat) : Z := bits_to_time (p_baud p) (bits_per_byte * Z.of_nat k).
 
@@ -54,7 +58,7 @@ Proof. intros E. exists 0%nat. exact E. Qed.
 Definition bk0 (now : Z) (f : fdl) (w : W) (f' : fdl) (w' : W) : Prop :=
   w_tx w' = w_tx w /\ suffix_rx w w' /\
   ((f_pending f <= length (w_rx w))%nat -> (f_pending f' <= length (w_rx w'))%nat) /\
-  f_p f' = f_p f /\ lba_moves now (f_lba f) (f_lba f').
+  f_p f' = f_p f /\ lba_moves (w_rx w <> []) now (f_lba f) (f_lba f').
 
 (* a whole state function, entered with nothing transmitted yet *)
 Definition bk (now : Z) (f : fdl) (w : W) (f' : fdl) (w' : W) : Prop :=
@@ -63,8 +67,11 @@ Definition bk (now : Z) (f : fdl) (w : W) (f' : fdl) (w' : W) : Prop :=
   f_p f' = f_p f /\
   match w_tx w' with
   | Some wire => f_lba f' = Some (now + dur (f_p f) (length wire))
-  | None => lba_moves now (f_lba f) (f_lba f') \/ rst now f'
+  | None => lba_moves (w_rx w <> []) now (f_lba f) (f_lba f') \/ rst now f'
   end.
+
+Lemma suffix_nonempty (w w' : W) : suffix_rx w w' -> w_rx w' <> [] -> w_rx w <> [].
+Proof. intros [k E] H C. apply H. rewrite E, C. destruct k; reflexivity. Qed.
 
 Lemma bk0_refl now f w : bk0 now f w f w.
 Proof.
@@ -75,7 +82,7 @@ Lemma bk0_trans now f w f1 w1 f2 w2 : bk0 now f w f1 w1 -> bk0 now f1 w1 f2 w2 -
 Proof.
   intros (T1 & S1 & P1 & Q1 & L1) (T2 & S2 & P2 & Q2 & L2).
   split; [congruence|]. split; [eapply suffix_rx_trans; eassumption|]. split; [auto|]. split; [congruence|].
-  eapply lba_moves_trans; eassumption.
+  eapply lba_moves_trans; [exact L1|]. eapply lba_moves_weaken; [|exact L2]. apply suffix_nonempty; exact S1.
 Qed.
 
 Lemma bk0_frame now f (w : W) f' w' :
@@ -87,7 +94,7 @@ Proof.
 Qed.
 
 Lemma bk0_lba now f (w : W) f' w' :
-  w_tx w' = w_tx w -> w_rx w' = w_rx w -> lba_moves now (f_lba f) (f_lba f') -> f_pending f' = f_pending f -> f_p f' = f_p f ->
+  w_tx w' = w_tx w -> w_rx w' = w_rx w -> lba_moves (w_rx w <> []) now (f_lba f) (f_lba f') -> f_pending f' = f_pending f -> f_p f' = f_p f ->
   bk0 now f w f' w'.
 Proof.
   intros T R L P Q. split; [exact T|]. split; [apply suffix_rx_eq; exact R|]. split; [rewrite P, R; auto|].
@@ -102,7 +109,8 @@ Proof.
   intros (T1 & S1 & P1 & Q1 & L1) (S2 & P2 & Q2 & L2).
   split; [eapply suffix_rx_trans; eassumption|]. split; [auto|]. split; [congruence|].
   destruct (w_tx w2) as [wire|]; [rewrite <- Q1; exact L2|].
-  destruct L2 as [L2|R2]; [left; eapply lba_moves_trans; eassumption|right; exact R2].
+  destruct L2 as [L2|R2]; [left|right; exact R2].
+  eapply lba_moves_trans; [exact L1|]. eapply lba_moves_weaken; [|exact L2]. apply suffix_nonempty; exact S1.
 Qed.
 
 (* ---- primitives ---- *)
@@ -231,13 +239,20 @@ Qed.
 
 (* the station after a received telegram was noted: last_bus_activity := max (...) now, pending := 0 *)
 Lemma bk0_received now f (w : W) fx wx k :
-  w_tx wx = w_tx w -> w_rx wx = skipn k (w_rx w) ->
+  w_rx w <> [] -> w_tx wx = w_tx w -> w_rx wx = skipn k (w_rx w) ->
   f_lba fx = f_lba (mark_rx f now) -> f_pending fx = 0%nat -> f_p fx = f_p f -> bk0 now f w fx wx.
 Proof.
-  intros T R L P Q. destruct (mark_rx_spec f now) as (ML & _).
+  intros Hne T R L P Q. destruct (mark_rx_spec f now) as (ML & _).
   split; [exact T|]. split; [exists k; exact R|]. split; [intros _; rewrite P; lia|].
-  split; [exact Q|]. right. right. rewrite L. exact ML.
+  split; [exact Q|]. right. right. split; [exact Hne|]. rewrite L. exact ML.
 Qed.
+
+Lemma decode_nil : decode [] = Ok NeedMore.
+Proof. reflexivity. Qed.
+
+Lemma receive_telegram_some {R} (g : telegram -> R) buf rest r :
+  receive_telegram g buf = Ok (rest, Some r) -> buf <> [].
+Proof. intros H ->. unfold receive_telegram in H. rewrite decode_nil in H. cbn in H. discriminate H. Qed.
 
 Lemma await_gap_bk0 now f (w : W) pa f' w' r :
   await_gap_poll_response A f now w pa = Ok (f', w', r) ->
@@ -246,10 +261,11 @@ Proof.
   unfold await_gap_poll_response.
   destruct (pa =? ts f); [discriminate|]. destruct (negb _); [discriminate|].
   destruct (receive_telegram (fun t => t) (w_rx w)) as [[rest received]| |] eqn:Er; cbn [bind]; try discriminate.
-  apply receive_telegram_suffix in Er. destruct Er as [k Ek].
+  destruct (receive_telegram_suffix _ _ _ _ Er) as [k Ek].
   destruct (mark_rx_spec f now) as (ML & MP & MS & MQ & _).
   destruct received as [t|].
-  - assert (Hdone : forall fx t0, f_lba fx = f_lba (mark_rx f now) -> f_pending fx = 0%nat -> f_p fx = f_p f ->
+  - pose proof (receive_telegram_some _ _ _ _ Er) as Hne.
+    assert (Hdone : forall fx t0, f_lba fx = f_lba (mark_rx f now) -> f_pending fx = 0%nat -> f_p fx = f_p f ->
               f_state fx = f_state f -> bk0 now f w fx (note A (set_rx A w rest) t0) /\ f_state fx = f_state f).
     { intros fx t0 L P Q S. split; [|exact S]. eapply bk0_received with (k := k); try eassumption; try reflexivity. }
     destruct t as [[da sa dsap ssap fc] pdu|da sa|]; [destruct fc as [fb rq|st status]| |];
@@ -444,14 +460,14 @@ Definition rstL (now : Z) (fc : fdl) : Prop :=
 
 Definition LI (now : Z) (f : fdl) (w : W) (s : fdl * W) : Prop :=
   w_tx (snd s) = w_tx w /\ w_rx (snd s) = w_rx w /\ f_p (fst s) = f_p f /\
-  (lba_moves now (f_lba f) (f_lba (fst s)) \/ rstL now (fst s)).
+  (lba_moves True now (f_lba f) (f_lba (fst s)) \/ rstL now (fst s)).
 
 Lemma LI_mark_rx now f w fc wc : LI now f w (fc, wc) -> LI now f w (mark_rx fc now, wc).
 Proof.
   unfold LI. cbn [fst snd]. intros (T & R & Q & L). destruct (mark_rx_spec fc now) as (ML & MP & MS & MQ & MC & _).
   split; [exact T|]. split; [exact R|]. split; [congruence|].
   destruct L as [L|(S1 & C1 & P1 & L1)].
-  - left. eapply lba_moves_trans; [exact L|]. right. right. exact ML.
+  - left. eapply lba_moves_trans; [exact L|]. right. right. split; [exact I|exact ML].
   - right. split; [congruence|]. split; [congruence|]. split; [exact MP|]. right. rewrite ML.
     destruct L1 as [-> | ->]; cbn [gv]; f_equal; lia.
 Qed.
@@ -499,7 +515,7 @@ Qed.
 
 (* the loops that cannot re-create the station *)
 Definition LI0 (now : Z) (f : fdl) (w : W) (fc : fdl) (wc : W) : Prop :=
-  w_tx wc = w_tx w /\ w_rx wc = w_rx w /\ f_p fc = f_p f /\ lba_moves now (f_lba f) (f_lba fc).
+  w_tx wc = w_tx w /\ w_rx wc = w_rx w /\ f_p fc = f_p f /\ lba_moves True now (f_lba f) (f_lba fc).
 
 Lemma LI0_refl now f w : LI0 now f w f w.
 Proof. unfold LI0. repeat split; try reflexivity. apply lba_moves_refl. Qed.
@@ -508,7 +524,7 @@ Lemma LI0_mark_rx now f w fc wc : LI0 now f w fc wc -> LI0 now f w (mark_rx fc n
 Proof.
   intros (T & R & Q & L). destruct (mark_rx_spec fc now) as (ML & MP & MS & MQ & _).
   split; [exact T|]. split; [exact R|]. split; [congruence|].
-  eapply lba_moves_trans; [exact L|]. right. right. exact ML.
+  eapply lba_moves_trans; [exact L|]. right. right. split; [exact I|exact ML].
 Qed.
 
 Lemma LI0_frm now f w fc wc f' w' : LI0 now f w fc wc -> frm fc wc f' w' -> LI0 now f w f' w'.
@@ -543,12 +559,27 @@ Proof.
 Qed.
 
 (* the end of a receive loop: the rest of the buffer is set, pending_bytes is synchronised *)
+Lemma receive_all_inv_ne {S R : Type} (P : S -> Prop) (cb : S -> telegram -> bool -> res (S * R)) :
+  (forall s t l s' r, P s -> cb s t l = Ok (s', r) -> P s') ->
+  forall fuel s buf s' rest r, P s -> receive_all cb fuel s buf = Ok (s', rest, r) ->
+  (buf = [] /\ s' = s) \/ (buf <> [] /\ P s').
+Proof.
+  intros Hcb fuel s buf s' rest r Hp H. destruct buf as [|b buf].
+  - left. split; [reflexivity|]. destruct fuel; [discriminate H|]. cbn [receive_all] in H. rewrite decode_nil in H.
+    cbn [bind] in H. injection H as <- _ _. reflexivity.
+  - right. split; [discriminate|]. exact (receive_all_inv P cb Hcb _ _ _ _ _ _ Hp H).
+Qed.
+
 Lemma loop_end_bk0 now f (w : W) fc wc rest k :
-  LI0 now f w fc wc -> rest = skipn k (w_rx w) ->
+  (w_rx w = [] /\ (fc, wc) = (f, w)) \/ (w_rx w <> [] /\ LI0 now f w fc wc) -> rest = skipn k (w_rx w) ->
   bk0 now f w (sync_pending_bytes A fc (set_rx A wc rest)) (set_rx A wc rest).
 Proof.
-  intros (T & R & Q & L) ->. split; [exact T|]. split; [exists k; reflexivity|].
-  split; [intros _; cbn; apply Nat.le_min_r|]. split; [exact Q|exact L].
+  intros [(E & Es)|(Hne & T & R & Q & L)] ->.
+  - injection Es as -> ->. split; [reflexivity|]. split; [exists k; reflexivity|].
+    split; [intros _; cbn; apply Nat.le_min_r|]. split; [reflexivity|apply lba_moves_refl].
+  - split; [exact T|]. split; [exists k; reflexivity|].
+    split; [intros _; cbn; apply Nat.le_min_r|]. split; [exact Q|].
+    eapply lba_moves_weaken; [|exact L]. intros _. exact Hne.
 Qed.
 
 Lemma receive_all_telegrams_listen_bk now f (w : W) f' w' :
@@ -558,14 +589,17 @@ Proof.
   destruct (receive_all _ _ (f, w) (w_rx w)) as [[[s1 rest] r]| |] eqn:Er; cbn [bind] in H; try discriminate H.
   destruct s1 as [f1 w1]. injection H as <- <-.
   destruct (receive_all_suffix _ _ _ _ _ _ _ Er) as [k Ek].
-  assert (HI : LI now f w (f1, w1)).
-  { refine (receive_all_inv (LI now f w) _ _ _ (f, w) _ (f1, w1) rest r _ Er).
+  assert (HI : (w_rx w = [] /\ (f1, w1) = (f, w)) \/ (w_rx w <> [] /\ LI now f w (f1, w1))).
+  { refine (receive_all_inv_ne (LI now f w) _ _ _ (f, w) _ (f1, w1) rest r _ Er).
     - intros s t l s' u Hp Hc. exact (listen_token_telegram_LI _ _ _ _ _ _ _ _ Hp Hc).
     - unfold LI. cbn. repeat split; try reflexivity. left. apply lba_moves_refl. }
-  destruct HI as (T & R & Q & L). cbn [fst snd] in *.
+  destruct HI as [(E & Es)|(Hne & T & R & Q & L)].
+  { injection Es as -> ->. apply bk0_bk; [exact Hw|].
+    apply (loop_end_bk0 now f w f w rest k); [left; split; [exact E|reflexivity]|exact Ek]. }
+  cbn [fst snd] in *.
   split; [exists k; cbn; exact Ek|]. split; [intros _; cbn; apply Nat.le_min_r|]. split; [exact Q|].
   cbn [w_tx set_rx]. rewrite T, Hw. cbn [f_lba sync_pending_bytes set_pending].
-  destruct L as [L|(S1 & C1 & P1 & L1)]; [left; exact L|right].
+  destruct L as [L|(S1 & C1 & P1 & L1)]; [left; eapply lba_moves_weaken; [|exact L]; intros _; exact Hne|right].
   split; [exact S1|]. split; [exact C1|]. split; [cbn; rewrite P1; reflexivity|exact L1].
 Qed.
 
@@ -576,8 +610,8 @@ Proof.
   destruct (receive_all _ _ (f, w) (w_rx w)) as [[[s1 rest] r]| |] eqn:Er; cbn [bind] in H; try discriminate H.
   destruct s1 as [f1 w1]. injection H as <- <-.
   destruct (receive_all_suffix _ _ _ _ _ _ _ Er) as [k Ek].
-  assert (HI : LI0 now f w (fst (f1, w1)) (snd (f1, w1))).
-  { refine (receive_all_inv (fun s => LI0 now f w (fst s) (snd s)) _ _ _ (f, w) _ (f1, w1) rest r _ Er).
+  assert (HI : (w_rx w = [] /\ (f1, w1) = (f, w)) \/ (w_rx w <> [] /\ LI0 now f w (fst (f1, w1)) (snd (f1, w1)))).
+  { refine (receive_all_inv_ne (fun s => LI0 now f w (fst s) (snd s)) _ _ _ (f, w) _ (f1, w1) rest r _ Er).
     - intros s t l s' u Hp Hc. exact (active_idle_telegram_LI0 _ _ _ _ _ _ _ _ Hp Hc).
     - apply LI0_refl. }
   exact (loop_end_bk0 now f w f1 w1 rest k HI Ek).
@@ -742,14 +776,20 @@ Proof.
   - destruct (receive_all _ _ (f1, w, true) (w_rx w)) as [[[s1 rest] r]| |] eqn:Er; cbn [bind] in H; try discriminate H.
     destruct s1 as [[f2 w2] fi]. injection H as <- <-.
     destruct (receive_all_suffix _ _ _ _ _ _ _ Er) as [k Ek].
-    assert (HI : LI0 now f1 w (fst (fst (f2, w2, fi))) (snd (fst (f2, w2, fi)))).
-    { refine (receive_all_inv (fun s => LI0 now f1 w (fst (fst s)) (snd (fst s))) _ _ _ (f1, w, true) _ (f2, w2, fi) rest r _ Er).
+    assert (HI : (w_rx w = [] /\ (f2, w2, fi) = (f1, w, true)) \/
+                 (w_rx w <> [] /\ LI0 now f1 w (fst (fst (f2, w2, fi))) (snd (fst (f2, w2, fi))))).
+    { refine (receive_all_inv_ne (fun s => LI0 now f1 w (fst (fst s)) (snd (fst s))) _ _ _ (f1, w, true) _ (f2, w2, fi) rest r _ Er).
       - intros s t l s' u Hp Hc. exact (check_token_pass_telegram_LI0 _ _ _ _ _ _ _ _ Hp Hc).
       - apply LI0_refl. }
     cbn [fst snd] in HI. apply bk0_bk; [exact Hw|]. eapply bk0_trans; [exact B1|].
-    assert (HI' : LI0 now f1 w f2 (if fi then note A w2 TCheckAwait else w2)).
-    { destruct fi; [|exact HI]. destruct HI as (T & R & Q & L). split; [exact T|]. split; [exact R|]. split; assumption. }
-    exact (loop_end_bk0 now f1 w f2 _ rest k HI' Ek).
+    destruct HI as [(E & Es)|(Hne & HI)].
+    + injection Es as -> -> ->.
+      eapply bk0_trans; [|apply (loop_end_bk0 now f1 (note A w TCheckAwait) f1 (note A w TCheckAwait) rest k);
+                           [left; split; [exact E|reflexivity]|exact Ek]].
+      apply bk0_frame; reflexivity.
+    + assert (HI' : LI0 now f1 w f2 (if fi then note A w2 TCheckAwait else w2)).
+      { destruct fi; [|exact HI]. destruct HI as (T & R & Q & L). split; [exact T|]. split; [exact R|]. split; assumption. }
+      apply (loop_end_bk0 now f1 w f2 _ rest k); [right; split; assumption|exact Ek].
 Qed.
 
 (* ---- applications and token use ---- *)
@@ -862,16 +902,18 @@ Proof.
   destruct (get_await_data_response (f_state f)) as [[[addr tk] fa]| |]; cbn [bind] in H; try discriminate H.
   destruct (nth_error (w_apps w) (f_next_app f)) as [app|]; [|discriminate H].
   destruct (receive_telegram (fun t => t) (w_rx w)) as [[rest received]| |] eqn:Er; cbn [bind] in H; try discriminate H.
-  apply receive_telegram_suffix in Er. destruct Er as [k Ek].
+  destruct (receive_telegram_suffix _ _ _ _ Er) as [k Ek].
   destruct (mark_rx_spec f now) as (ML & MP & MS & MQ & _).
   destruct received as [t|].
-  - destruct (is_valid_response (mark_rx f now) addr t).
+  - pose proof (receive_telegram_some _ _ _ _ Er) as Hne.
+    destruct (is_valid_response (mark_rx f now) addr t).
     + destruct (a_rx ops app now _ addr t) as [app'| |]; cbn [bind] in H; try discriminate H.
       match type of H with bind ?x _ = _ => destruct x as [[f2 w2]| |] eqn:E2 end; cbn [bind] in H; try discriminate H.
       destruct (set_first_cycle_done f2) as [f3| |] eqn:Es; cbn [bind] in H; try discriminate H.
       injection H as <- <-. apply trans_frm in E2. pose proof (set_first_cycle_done_frm _ _ w2 Es) as Hs.
       destruct E2 as (T & R & L & P & Q). destruct Hs as (_ & _ & L3 & P3 & Q3). cbn in T, R, L, P, Q.
       apply bk0_bk; [exact Hw|]. eapply bk0_received with (k := k).
+      * exact Hne.
       * rewrite T. reflexivity.
       * rewrite R. exact Ek.
       * rewrite L3, L. reflexivity.
@@ -879,6 +921,7 @@ Proof.
       * rewrite Q3, Q, MQ. reflexivity.
     + apply trans_frm in H. destruct H as (T & R & L & P & Q). cbn in T, R.
       apply bk0_bk; [exact Hw|]. eapply bk0_received with (k := k).
+      * exact Hne.
       * rewrite T. reflexivity.
       * rewrite R. exact Ek.
       * exact L.
@@ -927,9 +970,20 @@ Qed.
 Definition saw_activity (f : fdl) (busy : bool) (w : W) : Prop :=
   busy = true \/ (f_pending f < length (w_rx w))%nat.
 
+(* what a whole poll does to the bookkeeping; mk = the PHY was busy or the receive buffer was not empty *)
+Definition pbk (now : Z) (busy : bool) (f : fdl) (w : W) (f' : fdl) (w' : W) : Prop :=
+  suffix_rx w w' /\
+  ((f_pending f <= length (w_rx w))%nat -> (f_pending f' <= length (w_rx w'))%nat) /\
+  f_p f' = f_p f /\
+  match w_tx w' with
+  | Some wire => f_lba f' = Some (now + dur (f_p f) (length wire))
+  | None => lba_moves (busy = true \/ w_rx w <> []) now (f_lba f) (f_lba f') \/
+            (rst now f' /\ forall l, f_lba f = Some l -> l < now)
+  end.
+
 Lemma poll_inner_bk now f busy (w : W) f' w' :
   poll_inner ops f now busy w = Ok (f', w') -> w_tx w = None ->
-  bk now f w f' w' /\
+  pbk now busy f w f' w' /\
   (w_tx w' <> None -> busy = false /\ (length (w_rx w) <= f_pending f)%nat /\ lba_ok f now) /\
   (f_conn f <> ConnOffline -> saw_activity f busy w ->
      w_tx w' = None /\ (f_lba f' = Some (Z.max (gv now (f_lba f)) now) \/ rst now f')).
@@ -951,27 +1005,43 @@ Proof.
       + injection Ep as <- <- <-. split; [apply frm_refl|]. split; [exact Ec|discriminate]. }
   destruct Hp as (Hf2 & Hc2 & Hoff). pose proof Hf2 as (T2 & R2 & L2 & P2 & Q2).
   assert (Hw2 : w_tx w2 = None) by congruence.
+  (* from a dispatch-level bk to pbk *)
+  assert (Hlift : forall f3 w3, w_tx w3 = None -> suffix_rx w w3 ->
+            ((f_pending f <= length (w_rx w))%nat -> (f_pending f3 <= length (w_rx w3))%nat) -> f_p f3 = f_p f ->
+            lba_moves (busy = true \/ w_rx w <> []) now (f_lba f) (f_lba f3) ->
+            (forall l, f_lba f = Some l -> l < now) ->
+            bk now f3 w3 f' w' -> pbk now busy f w f' w').
+  { intros f3 w3 T3 S3 P3 Q3 L3 Hpr (S & P & Q & L). split; [eapply suffix_rx_trans; eassumption|]. split; [auto|].
+    split; [congruence|]. destruct (w_tx w') as [wire|]; [rewrite <- Q3; exact L|].
+    destruct L as [L|R]; [left|right; split; [exact R|exact Hpr]].
+    eapply lba_moves_trans; [exact L3|]. eapply lba_moves_weaken; [|exact L].
+    intros Hne. right. exact (suffix_nonempty _ _ S3 Hne). }
   destruct off.
-  { injection E as <- <-. split; [apply bk0_bk; [exact Hw|apply frm_bk0; exact Hf2]|].
-    split; [intros C; rewrite Hw2 in C; contradiction|]. intros C. exfalso. exact (C (Hoff eq_refl)). }
+  { injection E as <- <-. split.
+    - split; [apply suffix_rx_eq; exact R2|]. split; [rewrite P2, R2; auto|]. split; [exact Q2|].
+      rewrite Hw2. left. rewrite L2. apply lba_moves_refl.
+    - split; [intros C; rewrite Hw2 in C; contradiction|]. intros C. exfalso. exact (C (Hoff eq_refl)). }
   unfold check_for_ongoing_transmision in E.
   destruct (mark_bus_activity_spec f2 now) as (ML & MP & MS & MQ & MC).
-  assert (Hearly : forall t0, bk0 now f w (mark_bus_activity f2 now) (note A w2 t0)).
-  { intros t0. eapply bk0_trans; [apply frm_bk0; exact Hf2|].
-    apply bk0_lba; try reflexivity; try assumption. right. right. exact ML. }
   assert (HML : f_lba (mark_bus_activity f2 now) = Some (Z.max (gv now (f_lba f)) now)) by (rewrite ML, L2; reflexivity).
   match type of E with context [if ?c then (_, _, true) else _] => destruct c eqn:Eong end.
-  { injection E as <- <-. split; [apply bk0_bk; [exact Hw|apply Hearly]|].
-    split; [intros C; cbn in C; rewrite Hw2 in C; contradiction|].
-    intros _ _. split; [cbn; exact Hw2|left; exact HML]. }
+  { injection E as <- <-. split.
+    - split; [apply suffix_rx_eq; exact R2|]. split; [rewrite MP, P2; cbn [w_rx note]; rewrite R2; auto|].
+      split; [congruence|]. cbn [w_tx note]. rewrite Hw2. left. rewrite HML.
+      destruct busy; [right; right; split; [left; reflexivity|reflexivity]|].
+      cbn [orb] in Eong. apply andb_prop in Eong. destruct Eong as (_ & Eong). rewrite L2 in Eong.
+      destruct (f_lba f) as [l|]; [|discriminate Eong]. apply Z.leb_le in Eong. right. left. cbn [gv]. f_equal. lia.
+    - split; [intros C; cbn in C; rewrite Hw2 in C; contradiction|].
+      intros _ _. split; [cbn; exact Hw2|left; exact HML]. }
   apply orb_false_iff in Eong. destruct Eong as (Hbusy & Hpred).
+  assert (Hpr : forall l, f_lba f = Some l -> l < now).
+  { intros l El. rewrite L2, El in Hpred. cbn in Hpred. apply Z.leb_gt in Hpred. exact Hpred. }
   unfold check_for_bus_activity in E.
   destruct (Nat.ltb (f_pending f2) (length (w_rx w2))) eqn:Eact.
   - set (f3 := set_pending (mark_bus_activity f2 now) (length (w_rx w2))) in *.
     set (w3 := note A w2 TBusActivity) in *.
-    assert (B3 : bk0 now f w f3 w3).
-    { eapply bk0_trans; [apply frm_bk0; exact Hf2|]. split; [reflexivity|]. split; [apply suffix_rx_eq; reflexivity|].
-      split; [intros _; subst f3 w3; cbn; lia|]. split; [subst f3; cbn; exact MQ|]. subst f3. cbn. right. right. exact ML. }
+    apply Nat.ltb_lt in Eact.
+    assert (Hne : w_rx w <> []) by (rewrite <- R2; intros C; rewrite C in Eact; cbn in Eact; lia).
     assert (Hw3 : w_tx w3 = None) by exact Hw2.
     assert (Hd : dispatch A ops f3 now w3 = Ok (f', w')) by exact E.
     pose proof (dispatch_bk now _ _ _ _ Hd Hw3) as Bd.
@@ -981,21 +1051,29 @@ Proof.
       assert (Hs : sends A w3 w') by (split; [exact Hw3|rewrite Et; discriminate]).
       destruct (dispatch_sync A ops _ _ _ _ _ Hd Hs) as (l3 & El3 & Hlt). rewrite Hl3 in El3. injection El3 as <-.
       pose proof (sync_nonneg f3). lia. }
-    split; [exact (bk_after_bk0 _ _ _ _ _ _ _ B3 Bd)|].
-    split; [intros C; rewrite Hntx in C; contradiction|].
-    intros _ _. split; [exact Hntx|].
-    destruct Bd as (_ & _ & _ & Bl). rewrite Hntx in Bl. destruct Bl as [Bl|Br]; [left|right; exact Br].
-    rewrite Hl3 in Bl. unfold lba_moves in Bl. cbn [gv] in Bl.
-    destruct Bl as [-> | [-> | ->]]; f_equal; lia.
+    split.
+    + apply (Hlift f3 w3 Hw3); [apply suffix_rx_eq; exact R2| | | |exact Hpr|exact Bd].
+      * intros _. subst f3 w3. cbn. lia.
+      * subst f3. cbn. congruence.
+      * rewrite Hl3. right. right. split; [right; exact Hne|reflexivity].
+    + split; [intros C; rewrite Hntx in C; contradiction|].
+      intros _ _. split; [exact Hntx|].
+      destruct Bd as (_ & _ & _ & Bl). rewrite Hntx in Bl. destruct Bl as [Bl|Br]; [left|right; exact Br].
+      rewrite Hl3 in Bl. unfold lba_moves in Bl. cbn [gv] in Bl.
+      destruct Bl as [-> | [-> | (_ & ->)]]; f_equal; lia.
   - assert (Hd : dispatch A ops f2 now w2 = Ok (f', w')) by exact E.
     pose proof (dispatch_bk now _ _ _ _ Hd Hw2) as Bd.
     apply Nat.ltb_ge in Eact.
-    split; [exact (bk_after_bk0 _ _ _ _ _ _ _ (frm_bk0 now _ _ _ _ Hf2) Bd)|].
     split.
-    + intros C. split; [exact Hbusy|]. split; [rewrite <- R2, <- P2; exact Eact|].
-      assert (Hs : sends A w2 w') by (split; assumption).
-      destruct (dispatch_sync A ops _ _ _ _ _ Hd Hs) as (l2 & El2 & Hlt). exists l2. rewrite <- L2, <- Q2. split; assumption.
-    + intros _ [C|C]; [rewrite C in Hbusy; discriminate|]. exfalso. rewrite R2, P2 in Eact. lia.
+    + apply (Hlift f2 w2 Hw2); [apply suffix_rx_eq; exact R2| | | |exact Hpr|exact Bd].
+      * rewrite P2, R2. auto.
+      * exact Q2.
+      * rewrite L2. apply lba_moves_refl.
+    + split.
+      * intros C. split; [exact Hbusy|]. split; [rewrite <- R2, <- P2; exact Eact|].
+        assert (Hs : sends A w2 w') by (split; assumption).
+        destruct (dispatch_sync A ops _ _ _ _ _ Hd Hs) as (l2 & El2 & Hlt). exists l2. rewrite <- L2, <- Q2. split; assumption.
+      * intros _ [C|C]; [rewrite C in Hbusy; discriminate|]. exfalso. rewrite R2, P2 in Eact. lia.
 Qed.
 
 Theorem poll_bk now f pin (apps : list A) f' o apps' calls :
@@ -1006,7 +1084,8 @@ Theorem poll_bk now f pin (apps : list A) f' o apps' calls :
   match tx o with
   | Some wire => f_lba f' = Some (now + dur (f_p f) (length wire)) /\ tx_busy pin = false /\
                  (length (rx pin) <= f_pending f)%nat /\ lba_ok f now
-  | None => lba_moves now (f_lba f) (f_lba f') \/ rst now f'
+  | None => lba_moves (tx_busy pin = true \/ rx pin <> []) now (f_lba f) (f_lba f') \/
+            (rst now f' /\ forall l, f_lba f = Some l -> l < now)
   end /\
   (f_conn f <> ConnOffline -> tx_busy pin = true \/ (f_pending f < length (rx pin))%nat ->
      tx o = None /\ (f_lba f' = Some (Z.max (gv now (f_lba f)) now) \/ rst now f')).
